@@ -1,5 +1,34 @@
 """C17 — pipelines are selected and compiled independently."""
+import re
+
 T = "RsslVerif.Thm.C17."
+
+KEY_INSTANTIATION = "property-value-instantiates-template"
+
+
+def finding_key(req, obs, detail):
+    """One class: a Pipeline block has a property value `z:<template>` (= `sizeof(<template><uint>(1u))`, accepted, value 4)
+    whose type check instantiates a function template; the instantiated function is then part of the module, so the
+    source of every *other* pipeline of the file (and of no-pipeline mode) contains it - and does not when that block is
+    deleted.  Only these two oracle verdicts, only when an active block other than the failing one carries such a value."""
+    f = req.split("\t")
+    m = re.match(r"FAIL:panic ([^:]+):\d+: (.*)$", detail or "")
+    if m:
+        return f"panic {m.group(1)}: " + re.sub(r"\d+", "N", m.group(2))
+    if f[0] == "C17.wide" and len(f) == 7 and detail:
+        on = f[3].startswith("on")
+        inst = []
+        for it in f[4].split(" | "):
+            w = it.split(" ")
+            if w[0] == "P" and len(w) > 3 and not ("D" in w[2] and not on) and not ("E" in w[2] and on):
+                if any("=z:" in x for x in w[3:]):
+                    inst.append(w[1])
+        m = re.match(r"FAIL:pipeline (\S+) by name Ok\(1 pipelines, [^)]*\) but alone in the file Ok\(1 pipelines, ", detail)
+        if m and any(n != m.group(1) for n in inst):
+            return KEY_INSTANTIATION
+        if inst and detail == "FAIL:no-pipeline output depends on the pipeline definitions in the file":
+            return KEY_INSTANTIATION
+    return req
 
 
 def nontrivial(req, obs):
@@ -68,6 +97,7 @@ SPEC = {
         "Typer.elabCore_depends_on_named_entries", "Typer.attributes_from_definition"]],
     "harness": "c17",
     "nontrivial": nontrivial,
+    "finding_key": finding_key,
     "harness_args": harness_args,
     "search": search,
     "rule": "(1) progen shader files (0-4 pipelines: compute, vertex+pixel, mesh+pixel, task+mesh; shared and private entry "
